@@ -403,16 +403,16 @@ def c_app_failure(how: int, exc_kind: int) -> str:
     Failing application code: handler entry point ENTRY (through adapter ADAPTER) fails in manner `how`
     (0 raises immediately, 1 raises after its first await, 2 returns a failing future / a publisher that fails
     on subscribe, 3 publisher fails on request(n), 4 generator raises at the second element), raising exception kind exc_kind (RuntimeError,
-    ConnectionResetError and TimeoutError - OSErrors that must not be mistaken for a lost transport -, KeyError).  The failure is
+    ConnectionResetError and TimeoutError - OSErrors that must not be mistaken for a lost transport -, KeyError, an exception whose only argument is not text).  The failure is
     confined to an ERROR on that stream (stream 0 for on_setup), the endpoint keeps serving: a request on another
     stream - sent before (still pending) and after - is answered correctly.
 
-    pre: 0 <= how <= 4 and 0 <= exc_kind <= 3
+    pre: 0 <= how <= 4 and 0 <= exc_kind <= 4
     post: _ in ALLOWED
     """
     from harness.c12_app import build_handler, trigger_frame
     how = conc(how, 0, 4)
-    exc_kind = conc(exc_kind, 0, 3)
+    exc_kind = conc(exc_kind, 0, 4)
     loop = new_loop()
     with loop:
         t = SimTransport(loop)
